@@ -89,6 +89,9 @@ def check_case(ctx, case):
     before = arr.tobytes()
     try:
         with np.errstate(all="ignore"):
+            # a downscaler object serves every chunk of a pyramid: use it on
+            # another array (other shape and dtype) first
+            ds.downscale(np.ones((1, 3, 2, 5), dtype="uint16"), factors)
             out = ds.downscale(arr, factors)
     except Exception as exc:
         ctx.fail("%s downscale%s of %s %s raised %s: %s" % (
